@@ -11,6 +11,17 @@ fn verif_replay() {
     let path = match std::env::var("VERIF_REPLAY") { Ok(p) => p, Err(_) => return };
     let case: serde_json::Value = serde_json::from_str(&std::fs::read_to_string(path).unwrap()).unwrap();
     let a = case["args"].clone();
+    if case["driver"].as_str() == Some("parse") {
+        // parse (and evaluate) one expression with the real parser
+        let src = a["source"].as_str().unwrap_or("").to_string();
+        let r = std::panic::catch_unwind(|| crate::parser::parse(&src).map(|v| v.to_string()).map_err(|e| format!("{:?}", e)));
+        match r {
+            Err(_) => println!("VERIF-OUTCOME {}", serde_json::json!({"panicked": true, "source": src})),
+            Ok(Ok(tree)) => println!("VERIF-OUTCOME {}", serde_json::json!({"panicked": false, "parsed": true, "tree": tree, "source": src})),
+            Ok(Err(e)) => println!("VERIF-OUTCOME {}", serde_json::json!({"panicked": false, "parsed": false, "parse_error": e.chars().take(120).collect::<String>(), "source": src})),
+        }
+        return;
+    }
     let l: Vec<Type> = a["lhs"].as_array().unwrap().iter().map(|x| ty(x.as_u64().unwrap())).collect();
     let r: Vec<Type> = a["rhs"].as_array().unwrap().iter().map(|x| ty(x.as_u64().unwrap())).collect();
     let res = if a["tuple"].as_bool().unwrap_or(true) { Type::Tuple(l.clone()) == Type::Tuple(r.clone()) } else { l[0] == r[0] };
